@@ -45,12 +45,38 @@ func c20ringSeqs(maxLen int) []string {
 	return out
 }
 
+// c20ringLinkSeqs: sequences over {a frame arrives, link down, link up, read} in which the link goes down at
+// least once, ending in a read; frames arrive only while the link is up.
+func c20ringLinkSeqs(maxLen int) []string {
+	var out []string
+	var rec func(p string, down bool)
+	rec = func(p string, down bool) {
+		if len(p) > 0 && p[len(p)-1] == 'R' && strings.Contains(p, "D") {
+			out = append(out, p)
+		}
+		if len(p) == maxLen {
+			return
+		}
+		for _, op := range "aDUR" {
+			switch {
+			case op == 'a' && down, op == 'D' && down, op == 'U' && !down:
+				continue
+			case op == 'R' && strings.Count(p, "R") >= 3:
+				continue
+			}
+			rec(p+string(op), (down || op == 'D') && op != 'U')
+		}
+	}
+	rec("", false)
+	return out
+}
+
 func verifC20Ring(c *drv.Ctx) {
 	maxLen := 4
 	if c.Tier == "thorough" {
 		maxLen = 5
 	}
-	c.R.Rule = fmt.Sprintf("model conformance, not a property verdict: every operation sequence of length <= %d over {a,b,L: an accepted / a rejected / a long accepted frame arrives; F,S: filter attached with snap length 262144 / 80; R,r: zero-copy / copying read} that ends in a read, at most 3 reads, on a real afpacket socket (veth pair in a fresh network namespace) and on zzvenv.TPacket; every read's outcome must agree. non-trivial = at least one frame arrives", maxLen)
+	c.R.Rule = fmt.Sprintf("model conformance, not a property verdict: every operation sequence of length <= %d over {a,b,L: an accepted / a rejected / a long accepted frame arrives; F,S: filter attached with snap length 262144 / 80; R,r: zero-copy / copying read} that ends in a read, at most 3 reads, plus every sequence of length <= 5 over {a, D: the link goes down, U: it comes back, R} with an outage, on a real afpacket socket (veth pair in a fresh network namespace) and on zzvenv.TPacket; every read's outcome must agree. non-trivial = at least one frame arrives", maxLen)
 	errc := make(chan error, 1)
 	labc := make(chan *zzvenv.RingLab, 1)
 	type job struct {
@@ -106,12 +132,14 @@ func verifC20Ring(c *drv.Ctx) {
 		}
 		return strings.Join(s, "; ")
 	}
-	for i, seq := range c20ringSeqs(maxLen) {
+	seqs := c20ringSeqs(maxLen)
+	seqs = append(seqs, c20ringLinkSeqs(5)...)
+	for i, seq := range seqs {
 		if !c.Mine(i+1) || c.Expired() {
 			continue
 		}
 		c.Eval(1)
-		if strings.ContainsAny(seq, "abL") {
+		if strings.ContainsAny(seq, "abLD") {
 			c.Nontrivial(1)
 		}
 		// the model numbers the frames of a sequence 1, 2, ...; the lab numbers them across sequences:
@@ -129,6 +157,9 @@ func verifC20Ring(c *drv.Ctx) {
 		for attempt := 0; attempt < 6 && !agree; attempt++ {
 			if attempt > 0 {
 				lab.Settle *= 4
+				if w2, err := zzvenv.RunModel(seq, 0); err == nil {
+					want = w2
+				}
 			}
 			base := labSeq(lab)
 			got, labErr = real(seq)
